@@ -233,15 +233,15 @@ def run_textmon(ctx):
 # the generated recorder ("harness")
 # ---------------------------------------------------------------------------------------------
 
-ALL_FAMILIES = ["core", "repo", "unicode", "kinds", "stack", "slice", "arity", "getter", "rec", "rand", "random"]
+ALL_FAMILIES = ["core", "repo", "unicode", "kinds", "stack", "slice", "arity", "getter", "rec", "rand", "senum", "random"]
 HARNESS_FAMILIES = {
     "C01": ALL_FAMILIES, "C02": ALL_FAMILIES, "C03": ALL_FAMILIES, "C04": ALL_FAMILIES,
-    "C05": ["stack", "slice", "repo", "rand", "random"],
-    "C06": ["slice", "stack"],
+    "C05": ["stack", "slice", "repo", "rand", "senum", "random"],
+    "C06": ["slice", "stack", "senum"],
     "C07": ["kinds"],
     "C08": ALL_FAMILIES, "C09": ALL_FAMILIES, "C10": ALL_FAMILIES, "C11": ALL_FAMILIES,
     "C15": ALL_FAMILIES, "C16": ALL_FAMILIES,
-    "C17": ["arity", "unicode", "core", "repo", "stack", "getter", "rand", "random"],
+    "C17": ["arity", "unicode", "core", "repo", "stack", "getter", "rand", "senum", "random"],
     "C18": ALL_FAMILIES,
     "C20": ["rec", "core", "repo", "getter", "stack", "rand", "random"],
 }
@@ -504,7 +504,7 @@ def run_c06(ctx):
 
 def pick_sanitizer_bins(emit, count):
     """One shard per family, in this order of relevance for cursor arithmetic."""
-    order = ["core", "stack", "repo", "unicode", "rand", "arity", "getter", "rec", "random"]
+    order = ["core", "stack", "repo", "unicode", "rand", "arity", "getter", "rec", "senum", "random"]
     picked = []
     for fam in order:
         for s in emit["shards"]:
